@@ -89,7 +89,7 @@ PROPS = {
             "translator tools/extract_tables.py: both line-break tables regenerated from tokenizer.rs on every run; Theorem linebreak_tables_are_spec pins them to the sets the property describes",
             "modelled, not verified: as for C09",
         ],
-        "assumptions": ["the layout characterisation is evaluated per input on the implementation, not yet proved for the model for all inputs"],
+        "assumptions": ["the theorem is about the tokenizer model; that the model is tokenizer.rs is the correspondence (C09/C10 streams compare token lists) plus the generated tables"],
     },
     "C07": {
         "level": "proof",
@@ -365,11 +365,13 @@ MANIFEST_TEXT = {
     "C10": {
         "text": "Kernel-checked on every run: the two line-break tables regenerated from tokenizer.rs equal the sets of tokens that can end / "
                 "start an expression as the property describes (moving one token between the lists breaks the theorem for all inputs). The "
-                "layout rule is the Coq function layout_ok run on the implementation's tokens; invariance under re-layout is checked on the "
-                "implementation directly (tokens and parse result). Partial proof: the universal layout theorem is stated, not yet proved.",
+                "layout theorem (tokenize_layout) is proved of the tokenizer model for every input: a line-break terminator stands between two "
+                "tokens exactly when the text between them contains a line break, the first can end and the second can start an expression; "
+                "none leads, trails or repeats. The same rule (layout_ok) is run on the implementation's tokens, the model's tokens are "
+                "compared with the implementation's, and invariance under re-layout is checked on the implementation directly.",
         "design_ref": "DESIGN.md section 4, C10",
         "note": "Trusted: as C09.",
-        "technique": "generated-table obligation (vm_compute) + executable Coq layout oracle + metamorphic re-layout testing of the implementation",
+        "technique": "Coq proof of the layout theorem for the tokenizer model over generated tables + generated-table obligation (vm_compute) + executable layout oracle on implementation output + metamorphic re-layout testing",
     },
     "C07": {
         "text": "Kernel-checked on every run for all inputs: the parser skeleton regenerated from parser.rs (36 functions: ordered "
